@@ -161,7 +161,9 @@ func TestVerifC18QUICSessionID(t *testing.T) {
 		src := vfGenTLS13Src(rt)
 		var spec ClientHelloSpec
 		var err error
-		if src.Kind == "parrot" {
+		if src.SpecFn != nil {
+			spec = *src.SpecFn()
+		} else if src.Kind == "parrot" {
 			spec, err = UTLSIdToSpec(src.ID)
 		} else {
 			spec, err = generateRandomizedSpec(&src.ID, "quic.example", []string{"h3"})
